@@ -99,7 +99,7 @@ VARIABLES case, phase, file, back, err,
 cvars == <<case, phase, file, back, err, sfile, sback>>
 
 CaseSpace == {c \in [s : [SFields -> SUBSET U], sel : Selectors, unset : UnsetSpace, layout : LayoutSpace, dflt : DfltSpace, arr : ArrSpace] :
-                 (c.layout \in {"split", "split_assoc"} => c.sel # "shift") /\ (c.sel = "extra" => c.layout \in {"single", "evicted"})}    \* (a shifted second trajectory would not fit the two species lists)
+                 (c.layout \in {"split", "split_assoc"} => c.sel # "shift") /\ (c.sel = "extra" => c.layout \in {"single", "evicted", "create_associated"})}    \* (a shifted second trajectory would not fit the two species lists)
 
 CInit == /\ case \in CaseSpace
          /\ phase = "start" /\ file = <<>> /\ back = <<>> /\ err = "none"
